@@ -7,9 +7,11 @@ import (
 	"fmt"
 	"io"
 	"math/rand"
+	"net/http"
 	"net/http/httptest"
 	"net/url"
 	"os"
+	"path/filepath"
 	"sort"
 	"strings"
 
@@ -28,7 +30,9 @@ func scenarioHTTPAPI(t *traceWriter, rng *rand.Rand) {
 	keyA := genLogKey(rng, "api-log-a")
 	wk := []witKey{genWitKey(rng, "apiwit", "ed25519"), genWitKey(rng, "apiwit", "cosigv1")}
 	w.wk = wk
-	stores := []string{"mem", "sql", "sqlfile"}
+	stores := []string{"mem", "sql", "sqlfile", "sqldrv"}
+	scratch := scratchDir()
+	defer os.RemoveAll(scratch)
 	for h := 0; h < nHist; h++ {
 		nLogs := 1 + rng.Intn(4)
 		var lss []*logState
@@ -40,7 +44,15 @@ func scenarioHTTPAPI(t *traceWriter, rng *rand.Rand) {
 		}
 		// the same stores behind a wrapper that can make Logs / ReadOps / GetLatest fail while the API is probed
 		kind := stores[h%len(stores)]
-		hnd := newStore(kind)
+		var hnd storeHandle
+		if kind == "sqldrv" {
+			// file-backed SQLite through the wrapping database/sql driver: faults strike inside Query / Rows.Next
+			path := filepath.Join(scratch, fmt.Sprintf("api%d.db", h))
+			db, p := openSQL(path)
+			hnd = storeHandle{kind: kind, p: p, close: func() { db.Close(); os.Remove(path) }}
+		} else {
+			hnd = newStore(kind)
+		}
 		ctl := &lspCtl{fail: map[string]bool{}}
 		s := newSessionWith(t, kind, defs, wk, &wrapLSP{inner: hnd.p, ctl: ctl, tid: func() int { return 0 }}, nil)
 		s.store.close = hnd.close
@@ -55,6 +67,26 @@ func scenarioHTTPAPI(t *traceWriter, rng *rand.Rand) {
 			if rng.Intn(4) == 0 {
 				faults = []string{"g", "r", "L", "gL"}[rng.Intn(4)]
 			}
+			// driver-level plan (sqldrv only): set just before one request, "fired" = it struck during that request
+			drvPlan := []string(nil)
+			if kind == "sqldrv" && faults != "" {
+				drvPlan = [][]string{{"query"}, {"next"}, {"next#2"}, {"next#3"}}[rng.Intn(4)]
+				faults = ""
+			}
+			withDrv := func(letter string, f func()) string {
+				if drvPlan == nil {
+					f()
+					return faults
+				}
+				drvCtl.setFaults(drvPlan)
+				f()
+				fired := !drvCtl.pending()
+				drvCtl.setFaults(nil)
+				if fired {
+					return letter
+				}
+				return ""
+			}
 			ctl.setFaults(faults)
 			defer ctl.setFaults("")
 			ids := []string{}
@@ -67,15 +99,21 @@ func scenarioHTTPAPI(t *traceWriter, rng *rand.Rand) {
 			ids = append(ids, odd[rng.Intn(len(odd))], odd[rng.Intn(len(odd))], odd[rng.Intn(len(odd))])
 			for _, id := range ids {
 				// raw GET (redirects followed, as any client would)
-				resp, err := srv.Client().Get(srv.URL + "/witness/v0/logs/" + id + "/checkpoint")
 				status, body := 0, []byte{}
-				if err == nil {
-					body, _ = io.ReadAll(resp.Body)
-					resp.Body.Close()
-					status = resp.StatusCode
-				}
+				fl := withDrv("g", func() {
+					resp, err := srv.Client().Get(srv.URL + "/witness/v0/logs/" + id + "/checkpoint")
+					if err == nil {
+						body, _ = io.ReadAll(resp.Body)
+						resp.Body.Close()
+						status = resp.StatusCode
+					}
+				})
 				if status != 200 {
 					body = nil
+				}
+				if drvPlan != nil {
+					t.line("A %s kind=get id=%s faults=%s states=%s => status=%d body=%s client=skip", s.id, hx([]byte(id)), fl, states, status, hx(body))
+					continue
 				}
 				// the bundled client
 				cres := ""
@@ -90,7 +128,9 @@ func scenarioHTTPAPI(t *traceWriter, rng *rand.Rand) {
 				}
 				t.line("A %s kind=get id=%s faults=%s states=%s => status=%d body=%s client=%s", s.id, hx([]byte(id)), faults, states, status, hx(body), cres)
 			}
-			resp, err := srv.Client().Get(srv.URL + "/witness/v0/logs")
+			var resp *http.Response
+			var err error
+			faults = withDrv("L", func() { resp, err = srv.Client().Get(srv.URL + "/witness/v0/logs") })
 			if err == nil {
 				body, _ := io.ReadAll(resp.Body)
 				resp.Body.Close()
